@@ -235,6 +235,26 @@ void CPCA(tensor *x, int scaling, size_t npc, CPCAMODEL *model)
 
     while(1){ /* loop until convergence of t */
       LIBSCI_VERIF_TICK(2);
+      mod_t = DVectorDVectorDotProd(t, t);
+      if(mod_t == 0.f || _isnan_(mod_t)){
+        /* Null component: every block is exactly zero (constant blocks, or all the
+         * variance already extracted). The block loadings would be 0/0 and the
+         * convergence test could never succeed: store a zero component (super scores,
+         * super weights and block loadings are already zero) and keep the cumulative
+         * block variance explained so far.
+         */
+        MatrixSet(T, 0.f);
+        TensorAppendMatrix(model->block_scores, T);
+        DVectorAppend(model->total_expvar, 0.f);
+        NewDVector(&local_blockvexp, Eb->order);
+        if(model->block_expvar->size > 0){
+          for(k = 0; k < Eb->order; k++)
+            local_blockvexp->data[k] = model->block_expvar->d[model->block_expvar->size-1]->data[k];
+        }
+        DVectorListAppend(model->block_expvar, local_blockvexp);
+        DelDVector(&local_blockvexp);
+        break;
+      }
       for(k = 0; k < Eb->order; k++){
         NewDVector(&p_b, Eb->m[k]->col);
        /*
